@@ -56,6 +56,18 @@ def check_parse(case, ctx):
     st_, p2 = call(Bip32Path.parse, str(p))
     if st_ == "exc" or list(p2.to_list()) != L or not (p2 == p):
         raise Violation("C17/format/reparse", "parse(str(parse(%r))) differs: %r" % (s, p2))
+    # the caller edits the object it got back; parsing the same string again must not be affected
+    for attr, val in (("addr_index", 7), ("chain", 1), ("account", H + 3), ("coin_type", H + 1), ("purpose", H + 99)):
+        try:
+            setattr(p, attr, val)
+        except Exception:  # noqa: BLE001
+            pass
+    for form in ("positional", "keyword"):
+        st_, pa = call(Bip32Path.parse, s) if form == "positional" else call(Bip32Path.parse, s=s)
+        if st_ == "exc" or list(pa.to_list()) != L:
+            raise Violation("C17/parse/poisoned-by-earlier-result", "after the object returned by an earlier parse(%r) was "
+                            "edited, parse(%r) [%s] gives %r, expected %r" % (s, s, form, pa if st_ == "exc" else pa.to_list(), L))
+    st_, p = call(Bip32Path.parse, s)
     other = render(L, [not m for m in case["marks"]], root)
     st_, p3 = call(Bip32Path.parse, other)
     if st_ == "exc" or not (p3 == p) or list(p3.to_list()) != L:
